@@ -906,6 +906,7 @@ async fn proxy_to_client(mut c_wr: DuplexStream, mut rx: tokio::sync::mpsc::Unbo
             let mut o = obs.lock().unwrap();
             o.s2c[idx].delivered = true;
             if f[1] == 7 { o.eods_delivered += 1 }
+            if f[1] == 7 && f.len() == 24 && u32::from_be_bytes([f[12], f[13], f[14], f[15]]) > FAR_REFRESH { o.cut_fired = true; break }
             if o.close_after_eods.is_some_and(|n| f[1] == 7 && o.eods_delivered >= n) { o.cut_fired = true; break }
             match o.cut_after {
                 Some(k) if (f[1] == 3 && !o.s2c[idx].from_proxy) || o.cut_count > 0 => { o.cut_count += 1; o.cut_count >= k }
@@ -1224,9 +1225,21 @@ struct Exec {
     api_faults: Vec<String>,
 }
 
-/// A step may wait for the refresh interval the source dictated, up to
-/// 2^32-1 s (the paused clock jumps there); beyond that it is a hang.
-const HORIZON: Duration = Duration::from_secs(u32::MAX as u64 + 2 * 3600 + 100);
+/// A step may wait for the refresh interval (at most the client's default
+/// 3600 s here, see `FAR_REFRESH`); the paused clock jumps there. Beyond the
+/// horizon it is a hang.
+const HORIZON: Duration = Duration::from_secs(2 * 3600 + 100);
+
+/// The client waits `refresh` seconds on a tokio timer. tokio's timer wheel
+/// spans about 2.2 years (2^36 ms); with a refresh of 2^32-1 s the runs
+/// ended in heap corruption (valgrind: invalid read in
+/// `tokio::runtime::time::wheel::Wheel::poll` at runtime shutdown, of a timer
+/// entry inside the already freed client future) — tokio is in the trusted
+/// base, not the subject. So the peer hangs up right after an End of Data
+/// whose refresh exceeds this bound: the exchange completes and is judged in
+/// full, the far timer is never created, the harness reconnects as after
+/// any closed connection.
+const FAR_REFRESH: u32 = 50_000_000;
 
 async fn settle() {
     // With the clock paused, time only advances when every task is idle, so
@@ -1682,6 +1695,8 @@ struct SlimStep {
 }
 
 fn run_transition(cfg: &Cfg, hist: &[Ev], parent_hash: u64, seen: &Seen) -> Slim {
+    // debugging aid: name the history before executing it (to find one that takes the process down)
+    if std::env::var_os("C06_TRACE").is_some() { eprintln!("TRACE {}", witness(cfg, hist)); }
     match exec(cfg, hist) {
         Err(p) => Slim { key: None, abs: Abs { cur: 0, chain_len: 0, epoch: 0, pending: 0, established: false }, panics: p, machinery: vec![],
             prefix_ok: true, step: None, odd_ops: (0, 0), api_faults: vec![] },
